@@ -235,7 +235,17 @@ def check_net(res, model, species_names, rng, tag, render=False):
         src = (d / "src" / "naunet_renorm.cpp").read_text()
         macros = ol.read_macros(d)
         ent = ol.extract_statements(src, r"IJth\(A, IDX_ELEM_\w+, IDX_ELEM_\w+\)")
-        upd = ol.extract_statements(src, r"ab\[IDX_\w+\]")
+        # the per-species updates: `ab[IDX_x] = ab[IDX_x] * (f);` and the compound spelling `ab[IDX_x] *= (f);` are
+        # read alike; any other write to an abundance in the file is something this reader does not understand
+        fn = src[src.index("RenormAbundance("):] if "RenormAbundance(" in src else src
+        fn = ol.resolve_aliases(fn)
+        upd = ol.extract_statements(fn, r"ab\[IDX_\w+\]")
+        upd += [(l, f"{l} * ({r})" if not re.fullmatch(r"\(.*\)", r) else f"{l} * {r}")
+                for l, r in ((l_.rstrip(" *"), r_) for l_, r_ in ol.extract_statements(fn, r"ab\[IDX_\w+\]\s*\*"))]
+        odd = [f"{a_}[{sub}] {op}" for a_, sub, op in ol.array_writes(fn) if not (a_ == "ab" and op in ("=", "*=") and re.fullmatch(r"IDX_\w+", sub))]
+        if odd:
+            res.violation("correspondence", f"rendered naunet_renorm.cpp: the reader does not understand the statement(s) {odd[:3]}", case)
+            upd = []
         ename = [next(iter(e.element_count)) for e in elements]
         mt2 = [[None] * n for _ in range(n)]
         ok = True
@@ -263,6 +273,11 @@ def check_net(res, model, species_names, rng, tag, render=False):
             except ValueError as e:
                 res.violation("correspondence", f"rendered naunet_renorm.cpp: {e}", case)
                 ok = False
+        if odd:
+            ok = False
+        if ok and n and not ent:
+            res.violation("correspondence", "rendered naunet_renorm.cpp: the reader finds no `IJth(A, IDX_ELEM_x, IDX_ELEM_y) = ...;` statement", case)
+            ok = False
         if ok and any(x is None for row in mt2 for x in row):
             res.violation("oracle", f"rendered InitRenorm does not assign every matrix entry of the {n}x{n} system", case)
             ok = False
